@@ -39,10 +39,14 @@ class VerifAllocator : public ArduinoJson::Allocator {
   long faultsFired() const { return fired_; }
   void resetCounters() { failable_ = 0; fired_ = 0; calls_ = 0; }
 
+  // a single block larger than this is refused, as a real heap would (keeps 4-byte length
+  // configurations from reserving gigabytes for a length that is merely announced)
+  static constexpr size_t maxBlock = 100000000;
+
   void* allocate(size_t n) override {
     calls_++;
     failable_++;
-    if (shouldFail()) {
+    if (shouldFail() || n > maxBlock) {
       fired_++;
       log({'A', id_, 0, 0, n, false});
       return nullptr;
@@ -97,7 +101,7 @@ class VerifAllocator : public ArduinoJson::Allocator {
     bool growing = n > old.size;
     if (growing) {
       failable_++;
-      if (shouldFail()) { fired_++; log({'R', id_, old.blk, 0, n, false}); return nullptr; }
+      if (shouldFail() || n > maxBlock) { fired_++; log({'R', id_, old.blk, 0, n, false}); return nullptr; }
     }
     // always move, so that stale pointers into the old block are caught by ASan
     void* q = malloc(n ? n : 1);
